@@ -198,6 +198,9 @@ func Templates() []Template {
 		ts = append(ts, Template{Name: "unary/" + op, Gen: func(rw, rd *rng.R, b int) OpCase {
 			dt := pick(rw, val.Float32, val.Float32, val.Float64)
 			shape := pick(rw, []int{b, 3}, []int{b, 3}, []int{b, 2, 3}, []int{b}, []int{b, 2, 1, 3}, []int{b, 67}, []int{b, 1})
+			if rw.Chance(1, 80) {
+				shape = []int{b, 33000} // beyond the element counts at which loops get chunked or parallelised
+			}
 			if (op == "Softmax" || op == "LogSoftmax") && len(shape) == 1 {
 				shape = []int{b, 3}
 			}
@@ -227,7 +230,10 @@ func Templates() []Template {
 			wshape := pick(rw, []int{3}, []int{1, 3}, []int{2, 3}, []int{1}, []int{2, 1}, []int{1, 1, 3}, []int{1, 2, 3})
 			x := RandOf(rd, dt, []int{b, 2, 3})
 			xAxis := 0
-			if rw.Chance(1, 5) {
+			if rw.Chance(1, 80) {
+				wshape = []int{16500}
+				x = RandOf(rd, dt, []int{b, 2, 16500})
+			} else if rw.Chance(1, 5) {
 				// no broadcasting needed at all: the data operand has exactly the weight's shape (and no batch axis), so
 				// the broadcast helpers hand their arguments back unchanged
 				wshape = pick(rw, []int{3}, []int{2, 3}, []int{1, 3})
